@@ -130,7 +130,8 @@ func execC12(spec *RunSpec) *Result {
 		return res
 	}
 	sig := func(class string, form int) string {
-		return fmt.Sprintf("%s/%s/%s/form%d", base.Entry, layout, class, form)
+		_ = form
+		return fmt.Sprintf("%s/%s/%s", base.Entry, layout, class)
 	}
 	narrowed := func(op OpSpec) *RunSpec {
 		c := cloneSpec(spec)
